@@ -216,6 +216,9 @@ func (vc *VC) Generate() (err error) {
 		if err := vc.postObligations(); err != nil {
 			return err
 		}
+		if err := vc.bindsObligations(); err != nil {
+			return err
+		}
 	}
 	return nil
 }
